@@ -355,4 +355,5 @@ func correspondence(o *hx.Opts, rng *rand.Rand, res *hx.Result, cw *hx.CaseWrite
 		}
 		add("hosts", t, js, nt)
 	}
+	correspondence2(o, rng, res, add)
 }
